@@ -105,6 +105,8 @@ func (p *Program) unitTasks(ct *Contract) []Task {
 		insts = next
 	}
 	var out []Task
+	// the case split must cover every value the precondition allows
+	out = append(out, Task{Ct: ct, Suffix: "[split-exhaustive]", ExhaustOnly: true})
 	if len(forLabels) > 0 {
 		out = append(out, Task{Ct: ct, Drop: forLabels})
 	}
@@ -143,7 +145,13 @@ func (p *Program) applyStateSubst(e *Exec, env0 *SpecEnv, entry map[string]Term)
 			keys = append(keys, k)
 		}
 	}
-	sort.Strings(keys)
+	// shorter expressions first: p.nextPlayer is fixed before p.kingSquare[p.nextPlayer^1] is evaluated
+	sort.Slice(keys, func(i, j int) bool {
+		if len(keys[i]) != len(keys[j]) {
+			return len(keys[i]) < len(keys[j])
+		}
+		return keys[i] < keys[j]
+	})
 	for _, k := range keys {
 		x, _ := parseSpecExpr(k)
 		av := env0.addrExpr(x)
@@ -156,7 +164,7 @@ func (p *Program) applyStateSubst(e *Exec, env0 *SpecEnv, entry map[string]Term)
 	}
 }
 
-func (p *Program) verifyUnit(ct *Contract, subst map[string]int64, suffix string) (u *Unit) {
+func (p *Program) verifyUnit(ct *Contract, subst map[string]int64, suffix string, exhaustOnly ...bool) (u *Unit) {
 	u = &Unit{Name: ct.Pkg + "." + ct.Key, Ct: ct, Ctx: newCtx(), Suffix: suffix}
 	c := u.Ctx
 	c.preamble = append(c.preamble, p.specLib)
@@ -183,7 +191,7 @@ func (p *Program) verifyUnit(ct *Contract, subst map[string]int64, suffix string
 		return p.cs.Frozen[g] && !p.cs.Grounds[g]
 	}
 	e := &Exec{c: c, prog: p, unit: u.Name, props: ct.Props, trusted: map[string]bool{}, kindCnt: map[string]int{},
-		safety: true, nilcheck: ct.NilCheck, ghost: map[string]Val{}, reveal: map[string]bool{}}
+		safety: true, nilcheck: ct.NilCheck, nosplit: ct.NoSplit, ghost: map[string]Val{}, reveal: map[string]bool{}}
 	for _, r := range ct.Reveal {
 		e.reveal[r] = true
 	}
@@ -207,6 +215,7 @@ func (p *Program) verifyUnit(ct *Contract, subst map[string]int64, suffix string
 		}
 	}()
 	e.subst = subst
+	e.exhaustOnly = len(exhaustOnly) > 0 && exhaustOnly[0]
 	if ct.IsLemma {
 		p.verifyLemma(e, ct, u)
 		return
@@ -257,6 +266,10 @@ func (p *Program) verifyUnit(ct *Contract, subst map[string]int64, suffix string
 	}
 	// vacuity: the precondition must be satisfiable
 	c.oblige(&Oblig{Name: u.Name + "#vacuity:requires-satisfiable", Kind: "vacuity", Fn: u.Name, Goal: tFalse, Props: ct.Props, Expect: "sat"})
+	if e.exhaustOnly {
+		p.splitExhaustive(e, ct, env0)
+		return
+	}
 	// lemma instances requested by `use` clauses (over the entry state)
 	for _, us := range ct.Uses {
 		p.useLemma(e, ct, us, env0, tTrue)
@@ -309,6 +322,30 @@ func (p *Program) verifyUnit(ct *Contract, subst map[string]int64, suffix string
 	return
 }
 
+// splitExhaustive: the values of the substitution splits (parameters, memory locations) must
+// cover everything the precondition allows; proved on the unsubstituted unit
+func (p *Program) splitExhaustive(e *Exec, ct *Contract, env *SpecEnv) {
+	pnames := map[string]bool{}
+	for n := range env.params {
+		pnames[n] = true
+	}
+	for _, sp := range ct.Splits {
+		if !pnames[sp.Var] && !isLocationExpr(sp.Var) {
+			continue
+		}
+		x, err := parseSpecExpr(sp.Var)
+		if err != nil {
+			e.fail("split expression %q: %v", sp.Var, err)
+		}
+		v := env.eval(x)
+		var alts []Term
+		for _, k := range sp.Vals {
+			alts = append(alts, e.c.eq(v.T(), bvLitI(v.T().Sort.W, int64(k))))
+		}
+		e.c.oblige(&Oblig{Name: e.unit + "#split-exhaustive:" + sp.Var, Label: sp.Var, Kind: "split-exhaustive", Fn: e.unit, Goal: e.c.or(alts...), Props: ct.Props})
+	}
+}
+
 var splitRe = regexp.MustCompile(`^(.+?)\s+in\s+(-?\d+)\.\.(-?\d+)$`)
 
 func (p *Program) makeSplits(e *Exec, ct *Contract, env *SpecEnv, u *Unit) {
@@ -339,6 +376,13 @@ func (p *Program) makeSplits(e *Exec, ct *Contract, env *SpecEnv, u *Unit) {
 			e.fail("split expression %q: %v", sp.Var, err)
 		}
 		v := env.eval(x)
+		{
+			var alts []Term
+			for _, k := range sp.Vals {
+				alts = append(alts, e.c.eq(v.T(), bvLitI(v.T().Sort.W, int64(k))))
+			}
+			e.c.oblige(&Oblig{Name: u.Name + "#split-exhaustive:" + sp.Var, Label: sp.Var, Kind: "split-exhaustive", Fn: u.Name, Goal: e.c.or(alts...), Props: ct.Props})
+		}
 		var ns [][]Term
 		var nn []string
 		for i, base := range u.Splits {
@@ -452,6 +496,13 @@ func (p *Program) verifyLemma(e *Exec, ct *Contract, u *Unit) {
 		c.assume(e.evalSpecBool(r, env0, nil, nil), "requires")
 	}
 	c.oblige(&Oblig{Name: u.Name + "#vacuity:requires-satisfiable", Kind: "vacuity", Fn: u.Name, Goal: tFalse, Props: ct.Props, Expect: "sat"})
+	if e.exhaustOnly {
+		p.splitExhaustive(e, ct, env0)
+		return
+	}
+	for _, us := range ct.Uses {
+		p.useLemma(e, ct, us, env0, tTrue)
+	}
 	p.makeSplits(e, ct, env0, u)
 	p.evalCarveOuts(e, env0, u)
 	st := &State{cells: cloneCells(entry), env: map[ssa.Value]Val{}, names: map[string]Val{}}
